@@ -308,15 +308,16 @@ def r7_oversize(ctx, F):
         ctx.violation("R7-oversize-gate", "shape", "shape not recognised: %d non-opcode guards on the oversize refusal" % len(size_guards), loc=c.loc())
         return
     cond, lab = size_guards[0]
-    lhs = strip_upd(cond[2]) if cond[0] == "B" else None
+    # normal form of the guard: `constant < header.len` (or `<=`) on the true edge
+    big = strip_upd(cond[3]) if cond[0] == "B" else None
     hdr_roots = [r for (r, n) in common.request_roots(v, b) if n == "InHeader"]
-    ok = cond[0] == "B" and cond[1] == "Gt" and lab != 0 and lhs is not None and lhs[0] == "F" and lhs[2] == "len" \
-        and ((lhs[1][0] == "F" and lhs[1][2] == "in_header") or lhs[1] in hdr_roots) and cond[3][0] == "K"
+    ok = cond[0] == "B" and cond[1] in ("Lt", "Le") and lab != 0 and big is not None and big[0] == "F" and big[2] == "len" \
+        and ((big[1][0] == "F" and big[1][2] == "in_header") or big[1] in hdr_roots) and cond[2][0] == "K"
     if not ctx.check("R7-oversize-gate", "form", ok,
                      "the oversize refusal is not of the form `header.len > constant`: `%s`" % vf.render(cond, b, short=True)[:200],
                      loc=c.loc(), detail=vf.render(cond, b, short=True)[:120]):
         return
-    K = cond[3][1]
+    K = cond[2][1] - (1 if cond[1] == "Le" else 0)
     maxbuf = F.const("api::server::MAX_BUFFER_SIZE")
     need = maxbuf + F.structs["abi::fuse_abi::InHeader"]["size"] + F.structs["abi::fuse_abi::WriteIn"]["size"]
     ctx.check("R7-oversize-gate", "bound", K >= need,
